@@ -73,7 +73,7 @@ func kwRef(alts []kwAlt, toks []lexer.Token, names map[lexer.TokenType]string, c
 
 func TestVerif_C01C10_KeywordChoices(t *testing.T) {
 	res := &xResult{Check: "keyword choices", Property: "C01 C10", Exhaustive: true,
-		Bound: "4 tag-built grammars (choice of untyped literals; typed literal and token reference mixed in; multi-token alternatives with a common prefix; non-ASCII literals whose case variants differ in length) x CaseInsensitive off / Ident / Ident+String x all inputs of <= 3 words over 12 words in several letter cases, lookahead 1 and 3",
+		Bound: "4 tag-built grammars (choice of untyped literals; typed literal and token reference mixed in; multi-token alternatives with a common prefix; non-ASCII literals whose case variants differ in length) x CaseInsensitive off / Ident / Ident+String (given after and before the Lexer option) x all inputs of <= 3 words over 12 words in several letter cases, lookahead 1 and 3",
 		Rule: "distinct (grammar, option, input) triples; non-trivial = some word of the input differs from a literal only by case"}
 	lex := lexer.MustSimple([]lexer.SimpleRule{{Name: "Ident", Pattern: `[\pL]+`}, {Name: "Int", Pattern: `\d+`}, {Name: "String", Pattern: `'[^']*'`}, {Name: "Whitespace", Pattern: `\s+`}})
 	names := map[lexer.TokenType]string{}
@@ -98,7 +98,12 @@ func TestVerif_C01C10_KeywordChoices(t *testing.T) {
 		tail []string // token types the optional tail accepts
 		run  func(opts []participle.Option, in string) (vals []string, w string, err error, berr error)
 	}
+	// the options in both orders: what CaseInsensitive names is resolved against the lexer of the finished parser
+	lexerLast := false
 	mk := func(opts []participle.Option) []participle.Option {
+		if lexerLast {
+			return append(append([]participle.Option{}, opts...), participle.Elide("Whitespace"), participle.Lexer(lex))
+		}
 		return append([]participle.Option{participle.Lexer(lex), participle.Elide("Whitespace")}, opts...)
 	}
 	cases := []gcase{
@@ -145,7 +150,8 @@ func TestVerif_C01C10_KeywordChoices(t *testing.T) {
 		}},
 	}
 	for _, g := range cases {
-		for _, ci := range cis {
+		for ord, ci := range append(append([]map[string]bool{}, cis...), cis[1:]...) {
+			lexerLast = ord >= len(cis)
 			var ciNames []string
 			for n := range ci {
 				ciNames = append(ciNames, n)
